@@ -25,7 +25,8 @@ RULE = ('cases are (source, other, derivation, follow-up edit, edited side). (a)
         'equal (equal copy, one cell / one label / row order changed), shape / fill_ratio / tostring / crc32 '
         'agreement. Oracle: ordered-table model (cell-wise or/and, conflict => ValueError unless ignored, sub-table '
         'in original or requested order, unknown => KeyError, axes swapped, cells complemented); after an edit on '
-        'one side the triple and hidden state of every other object are unchanged. Non-trivial: a derivation with '
+        'one side the triple and hidden state of every other object are unchanged; shape, fill_ratio, table string and '
+        'crc32 are read on the same object before and after every edit and must agree with the model and Context(*d). Non-trivial: a derivation with '
         'names shared between source and other followed by an edit that changes the edited side; for (c) a table '
         'with >= 2 objects and >= 2 properties.')
 ASSUMPTIONS = ['ordered-table model vlib/defmodel.py']
@@ -171,6 +172,8 @@ def check_pair(ctx, src_enc, oth_enc, deep=False):
             ctx.fail(site + '/raises:' + type(raised).__name__, base, f'{der!r} raised {type(raised).__name__}: {raised}')
         ctx.check(res is not src and res is not oth, site + '/not-new', base, 'result is one of its sources')
         dm.invariants(ctx, res, want, site, lambda: base, der)
+        dm.context_agreement(ctx, res, want, site, lambda: base, der)   # first read (a cached value would be taken now)
+        dm.context_agreement(ctx, src, src_m, site + '/source', lambda: base, der)
         # follow-up edits on each side
         objs = {'source': (src, src_m), 'other': (oth, oth_m), 'result': (res, want)}
         for side in ('source', 'other', 'result'):
@@ -181,7 +184,7 @@ def check_pair(ctx, src_enc, oth_enc, deep=False):
                 target, tm = trio[side]
                 case = dict(base, edit=edit, side=side)
                 before = {k: (dm.real_triple(v[0]), dm.internal(v[0])) for k, v in trio.items() if k != side}
-                tm2 = dm.step(ctx, target, tm, edit, lambda: case)
+                tm2 = dm.step(ctx, target, tm, edit, lambda: case, agreement=True)
                 changed = tm2.triple() != tm.triple()
                 uses_other = der[0] in ('union', 'or', 'intersection', 'and')
                 ctx.case(case, changed and (shared or not uses_other) and (uses_other or side != 'other'),
@@ -279,13 +282,14 @@ def make_machine(ctx):
             d, m = self.pool[i]
             edit = data.draw(st.sampled_from(edits_for(m)))
             self.log.append(['edit', i, edit])
-            self.pool[i][1] = dm.step(ctx, d, m, edit, self.case())
+            self.pool[i][1] = dm.step(ctx, d, m, edit, self.case(), agreement=True)
 
         @invariant()
         def all_match(self):
             for k, (d, m) in enumerate(self.pool):
                 ctx.check(dm.real_triple(d) == m.triple(), 'pool/member-differs', self.case(),
                           lambda: f'pool member {k} is {dm.real_triple(d)!r}, model {m.triple()!r}')
+                dm.context_agreement(ctx, d, m, 'pool', self.case())
 
         def teardown(self):
             ctx.hyp_examples += 1
@@ -332,10 +336,11 @@ def replay_pool(ctx, log):
                 pool[-1] = [res, want]
         elif e[0] == 'edit':
             _, i, edit = e
-            pool[i][1] = dm.step(ctx, pool[i][0], pool[i][1], edit, case)
+            pool[i][1] = dm.step(ctx, pool[i][0], pool[i][1], edit, case, agreement=True)
         for k, (d, m) in enumerate(pool):
             ctx.check(dm.real_triple(d) == m.triple(), 'pool/member-differs', case,
                       lambda: f'pool member {k} is {dm.real_triple(d)!r}, model {m.triple()!r}')
+            dm.context_agreement(ctx, d, m, 'pool', case)
 
 
 # ---------------------------------------------------------------------------
